@@ -30,6 +30,7 @@ LEAN_MODULE = "Optyx.Props.C09b"
 THEOREMS = [
     "Optyx.Props.C09b.scipy_inputs_faithful",
     "Optyx.Props.C09b.compiled_pair_faithful",
+    "Optyx.Props.C09b.scipy_hessian_faithful",
     "Optyx.Props.C09b.con_sign_meaning",
     "Optyx.Props.C09b.reported_objective",
     "Optyx.Props.Glue.glue_sources",
